@@ -111,3 +111,186 @@ Proof.
   unfold solve_checked. destruct (solve n m A B) as [X0|]; [|discriminate].
   destruct (mall2 _ _ _ _ _); [|discriminate]. auto.
 Qed.
+
+(* ---------------------------------------------------------------------- *)
+(* Direct correctness of `solve` over Q: Some X -> A X == B                *)
+(* ---------------------------------------------------------------------- *)
+Section SolveCorrect.
+Variables (n m : nat).
+Let w := (n + m)%nat.
+
+(* a row r (as a function of the column index) of the augmented system is satisfied by X *)
+Definition rsat (r : nat -> Q) (X : Qmat) : Prop :=
+  forall j, (j < m)%nat -> sumQ n (fun l => r l * get X l j) == r (n + j)%nat.
+Definition sat (M X : Qmat) : Prop := forall i, (i < n)%nat -> rsat (fun l => get M i l) X.
+
+Lemma rsat_ext r r' X : (forall l, (l < w)%nat -> r l == r' l) -> rsat r X -> rsat r' X.
+Proof.
+  intros E Hs j Hj. rewrite <- (E (n + j)%nat) by (unfold w; lia). rewrite <- (Hs j Hj).
+  apply sumQ_ext. intros l Hl. rewrite (E l) by (unfold w; lia). reflexivity.
+Qed.
+
+Lemma rsat_lin r1 r2 f X : rsat r1 X -> rsat r2 X -> rsat (fun l => r1 l + f * r2 l) X.
+Proof.
+  intros H1 H2 j Hj.
+  rewrite (sumQ_ext n _ (fun l => r1 l * get X l j + f * (r2 l * get X l j))) by (intros; ring).
+  rewrite sumQ_add, sumQ_scale_l. rewrite (H1 j Hj), (H2 j Hj). reflexivity.
+Qed.
+
+Lemma rsat_scale r f X : rsat r X -> rsat (fun l => f * r l) X.
+Proof.
+  intros H1 j Hj.
+  rewrite (sumQ_ext n _ (fun l => f * (r l * get X l j))) by (intros; ring).
+  rewrite sumQ_scale_l. rewrite (H1 j Hj). reflexivity.
+Qed.
+
+(* pivot search stays in range *)
+Lemma pivot_scan_range (M : Qmat) c best i cnt :
+  (c <= best < i)%nat -> (c <= pivot_scan M c best i cnt < i + cnt)%nat.
+Proof.
+  revert best i. induction cnt; intros best i Hb; simpl; [lia|].
+  match goal with |- context [if ?b then _ else _] => destruct b end.
+  - specialize (IHcnt i (S i)). lia.
+  - specialize (IHcnt best (S i)). lia.
+Qed.
+
+Lemma pivot_row_range (M : Qmat) c : (c < n)%nat -> (c <= pivot_row n M c < n)%nat.
+Proof.
+  intros Hc. unfold pivot_row.
+  pose proof (pivot_scan_range M c c (S c) (n - S c)). lia.
+Qed.
+
+Definition delta (i j : nat) : Q := if Nat.eqb i j then 1 else 0.
+(* columns < c of M are those of the identity *)
+Definition idcols (c : nat) (M : Qmat) : Prop :=
+  forall i c', (i < n)%nat -> (c' < c)%nat -> get M i c' == delta i c'.
+
+Lemma gj_step_spec c (M M' : Qmat) X :
+  (c < n)%nat -> gj_step n w c M = Some M' -> idcols c M ->
+  idcols (S c) M' /\ (sat M' X -> sat M X).
+Proof.
+  intros Hc Hstep Hid. unfold gj_step in Hstep.
+  destruct (pivot_row_range M c Hc) as [Hp1 Hp2].
+  set (p := pivot_row n M c) in *.
+  set (piv := get M p c) in *.
+  destruct (neqb piv nzero) eqn:Epiv; [discriminate|].
+  injection Hstep as <-.
+  assert (Hpiv : ~ piv == 0).
+  { intro Hz. apply Qeq_bool_iff in Hz. change (neqb piv nzero) with (Qeq_bool piv 0) in Epiv. congruence. }
+  set (sg := fun i : nat => if Nat.eqb i c then p else if Nat.eqb i p then c else i).
+  set (M1 := swap_rows n w c p M).
+  set (M2 := scale_row n w c piv M1).
+  assert (G1 : forall i j, (i < n)%nat -> (j < w)%nat -> get M1 i j = get M (sg i) j).
+  { intros. unfold M1, swap_rows. now rewrite get_mk. }
+  assert (G2 : forall i j, (i < n)%nat -> (j < w)%nat ->
+               get M2 i j == if Nat.eqb i c then get M1 i j / piv else get M1 i j).
+  { intros. unfold M2, scale_row. rewrite get_mk by assumption.
+    destruct (Nat.eqb i c); [apply ndiv_Q|reflexivity]. }
+  assert (G3 : forall i j, (i < n)%nat -> (j < w)%nat ->
+               get (elim_col n w c M2) i j ==
+               if Nat.eqb i c then get M2 i j else get M2 i j - get M2 i c * get M2 c j).
+  { intros. unfold elim_col. rewrite get_mk by assumption.
+    destruct (Nat.eqb i c); [reflexivity|]. rewrite nsub_Q, nmul_Q. reflexivity. }
+  assert (Hcw : (c < w)%nat) by (unfold w; lia).
+  assert (Hsg : forall i, (i < n)%nat -> (sg i < n)%nat).
+  { intros i Hi. unfold sg. destruct (Nat.eqb i c); [lia|]. destruct (Nat.eqb i p); lia. }
+  assert (Hcc : get M2 c c == 1).
+  { rewrite G2 by assumption. rewrite Nat.eqb_refl. rewrite G1 by assumption.
+    unfold sg. rewrite Nat.eqb_refl. fold piv. field. exact Hpiv. }
+  split.
+  - (* identity columns *)
+    intros i c' Hi Hc'. assert (Hc'w : (c' < w)%nat) by (unfold w; lia).
+    rewrite G3 by assumption.
+    assert (Hrow_c : forall c'', (c'' < c)%nat -> get M2 c c'' == 0).
+    { intros c'' Hc''. rewrite G2 by (unfold w; lia). rewrite Nat.eqb_refl.
+      rewrite G1 by (unfold w; lia). unfold sg. rewrite Nat.eqb_refl.
+      rewrite (Hid p c'') by lia. unfold delta.
+      destruct (Nat.eqb p c'') eqn:E; [apply Nat.eqb_eq in E; lia|]. field. exact Hpiv. }
+    destruct (Nat.eqb i c) eqn:Eic.
+    + apply Nat.eqb_eq in Eic. subst i.
+      destruct (Nat.eq_dec c' c) as [->|Hne].
+      * rewrite Hcc. unfold delta. now rewrite Nat.eqb_refl.
+      * rewrite Hrow_c by lia. unfold delta.
+        destruct (Nat.eqb c c') eqn:E; [apply Nat.eqb_eq in E; lia|reflexivity].
+    + apply Nat.eqb_neq in Eic.
+      destruct (Nat.eq_dec c' c) as [->|Hne].
+      * rewrite Hcc. unfold delta.
+        destruct (Nat.eqb i c) eqn:E; [apply Nat.eqb_eq in E; lia|ring].
+      * rewrite Hrow_c by lia.
+        rewrite G2 by assumption.
+        destruct (Nat.eqb i c) eqn:E; [apply Nat.eqb_eq in E; lia|].
+        rewrite G1 by assumption.
+        rewrite (Hid (sg i) c') by (try apply Hsg; lia).
+        unfold delta, sg. rewrite E.
+        destruct (Nat.eqb i p) eqn:E2.
+        -- apply Nat.eqb_eq in E2.
+           destruct (Nat.eqb c c') eqn:E3; [apply Nat.eqb_eq in E3; lia|].
+           destruct (Nat.eqb i c') eqn:E4; [apply Nat.eqb_eq in E4; lia|ring].
+        -- ring.
+  - (* the new system implies the old one *)
+    intros Hsat.
+    assert (S2 : sat M2 X).
+    { intros i Hi. destruct (Nat.eqb i c) eqn:Eic.
+      - apply Nat.eqb_eq in Eic. subst i.
+        apply (rsat_ext (fun l => get (elim_col n w c M2) c l)); [|apply Hsat; assumption].
+        intros l Hl. rewrite G3 by assumption. now rewrite Nat.eqb_refl.
+      - apply (rsat_ext (fun l => get (elim_col n w c M2) i l + get M2 i c * get (elim_col n w c M2) c l)).
+        + intros l Hl. rewrite !G3 by assumption. rewrite Eic, Nat.eqb_refl. ring.
+        + apply rsat_lin; apply Hsat; assumption. }
+    assert (S1 : sat M1 X).
+    { intros i Hi. destruct (Nat.eqb i c) eqn:Eic.
+      - apply (rsat_ext (fun l => piv * get M2 i l)); [|apply rsat_scale; apply S2; assumption].
+        intros l Hl. rewrite G2 by assumption. rewrite Eic. field. exact Hpiv.
+      - apply (rsat_ext (fun l => get M2 i l)); [|apply S2; assumption].
+        intros l Hl. rewrite G2 by assumption. now rewrite Eic. }
+    intros i Hi.
+    assert (Hinv : sg (sg i) = i).
+    { unfold sg. destruct (Nat.eqb i c) eqn:E1.
+      - apply Nat.eqb_eq in E1. subst i.
+        destruct (Nat.eqb p c) eqn:E2; [apply Nat.eqb_eq in E2; lia|]. now rewrite Nat.eqb_refl.
+      - destruct (Nat.eqb i p) eqn:E2.
+        + apply Nat.eqb_eq in E2. now rewrite Nat.eqb_refl.
+        + now rewrite E1, E2. }
+    apply (rsat_ext (fun l => get M1 (sg i) l)); [|apply S1; apply Hsg; assumption].
+    intros l Hl. rewrite G1 by (try apply Hsg; assumption). now rewrite Hinv.
+Qed.
+
+Lemma gj_loop_spec cnt : forall c (M M' : Qmat) X,
+  (c + cnt <= n)%nat -> gj_loop n w c cnt M = Some M' -> idcols c M ->
+  idcols (c + cnt) M' /\ (sat M' X -> sat M X).
+Proof.
+  induction cnt; intros c M M' X Hle Hl Hid; simpl in Hl.
+  - injection Hl as <-. rewrite Nat.add_0_r. auto.
+  - destruct (gj_step n w c M) as [M1|] eqn:Es; [|discriminate].
+    destruct (gj_step_spec c M M1 X ltac:(lia) Es Hid) as [Hid1 Hs1].
+    destruct (IHcnt (S c) M1 M' X ltac:(lia) Hl Hid1) as [Hid2 Hs2].
+    replace (c + S cnt)%nat with (S c + cnt)%nat by lia. auto.
+Qed.
+
+Theorem solve_correct (A B X : Qmat) :
+  solve n m A B = Some X -> meq n m (mmul n n m A X) B.
+Proof.
+  unfold solve. fold w.
+  destruct (gj_loop n w 0 n (mhcat n n m A B)) as [Mf|] eqn:El; [|discriminate].
+  intros E. injection E as <-.
+  assert (Hid0 : idcols 0 (mhcat n n m A B)) by (intros i c' _ Hc'; lia).
+  destruct (gj_loop_spec n 0 _ Mf (mblock 0 n n m Mf) ltac:(lia) El Hid0) as [Hid Hs].
+  simpl in Hid.
+  assert (Hsat : sat Mf (mblock 0 n n m Mf)).
+  { intros i Hi j Hj.
+    rewrite (sumQ_ext n _ (fun l => (if Nat.eqb i l then 1 else 0) * get Mf l (n + j))).
+    - now apply (sumQ_delta_l n i (fun l => get Mf l (n + j)%nat)).
+    - intros l Hl. rewrite (Hid i l Hi Hl). unfold mblock. rewrite get_mk by assumption.
+      unfold delta. simpl. reflexivity. }
+  specialize (Hs Hsat).
+  intros i j Hi Hj. rewrite get_mmul by assumption.
+  specialize (Hs i Hi j Hj). cbv beta in Hs.
+  unfold mhcat in Hs. rewrite get_mk in Hs by lia.
+  assert (Hlt : Nat.ltb (n + j) n = false) by (apply Nat.ltb_ge; lia).
+  rewrite Hlt in Hs. replace (n + j - n)%nat with j in Hs by lia.
+  rewrite <- Hs. apply sumQ_ext. intros l Hl.
+  rewrite get_mk by lia.
+  assert (Hlt2 : Nat.ltb l n = true) by (apply Nat.ltb_lt; lia).
+  now rewrite Hlt2.
+Qed.
+End SolveCorrect.
